@@ -30,7 +30,10 @@ EXTRA = {"C01-3": ["C12"], "C10-3": ["C12"], "C07-1": ["C04"], "C17-1": ["C02"],
          "C20-26": ["C12"], "C13-26": ["C07"], "C13-27": ["C15"], "C18-26": ["C02"], "C18-27": ["C12", "C04"], "C18-25": ["C16", "C01"],
          "C04-25": ["C02"], "C19-26": ["C07"], "C01-27": ["C12"], "C12-25": ["C06"],
          "C01-29": ["C03"], "C02-30": ["C03"], "C13-29": ["C03"], "C14-30": ["C03"], "C17-29": ["C02"], "C09-29": ["C14"], "C15-30": ["C16"],
-         "C17-30": ["C04"], "C17-28": ["C02"], "C05-29": ["C01"], "C03-29": ["C01"], "C17-27": ["C07"]}
+         "C17-30": ["C04"], "C17-28": ["C02"], "C05-29": ["C01"], "C03-29": ["C01"], "C17-27": ["C07"],
+         "C01-31": ["C12"], "C01-33": ["C12"], "C03-33": ["C17"], "C08-33": ["C17"], "C06-32": ["C05"], "C13-32": ["C09"], "C13-33": ["C14"],
+         "C14-32": ["C12"], "C15-33": ["C17", "C12"], "C17-32": ["C02"], "C17-33": ["C07"], "C18-31": ["C20", "C12"], "C18-32": ["C15"],
+         "C18-33": ["C12"]}
 
 
 def run(name):
